@@ -19,7 +19,7 @@ META = {
     "bounds": "file contents: opaque symbolic bytes of length 0..3 (solver-chosen) and concrete contents of length 23, 24, 255, 256, 65536; all 5 digest algorithms; reference "
     "forms file / file_direct / raw / envelope (inline and by path); file names: solver-chosen from representatives incl. names made of hex digits only; dependency nesting depth 2; "
     "direct size files: decimal texts 0, 1, 1024, 4294967296",
-    "stubs": ["in-memory file system behind open() / getsize() / Path.is_file; hashes.Hash -> congruent token stub; cbor2 -> cbormodel; hex provenance pair"],
+    "stubs": ["in-memory file system with symbolic links behind open() and, through vlib/vfs.py, behind os.stat/lstat (os.path.*, pathlib), os.open, shutil; functools.lru_cache modelled faithfully; hashes.Hash -> congruent token stub; cbor2 -> cbormodel; hex provenance pair"],
     "outside": ["files larger than the listed sizes", "symbolic file names (path strings are compared and looked up: representatives instead)"],
     "assumptions": ["the reference encoder's file semantics: a path names that file's bytes (vlib/refenc.py)"],
 }
@@ -33,9 +33,34 @@ def obligations(tier):
         Ob("digest_from_file", "E1", "h_params", {"what": "digest"}, 900, "image digest: forms file/file_direct/raw x 5 algorithms x contents", weight=100),
         Ob("size_from_file", "E1", "h_params", {"what": "size"}, 900, "image size: forms file/file_direct/raw x contents incl. width boundaries", weight=60),
         Ob("digest_and_size_of_envelope", "E1", "h_envelope_ref", {}, 900, "digest/size of a dependency envelope given inline or by path: hash of its wrapped manifest after its own digests were refreshed", weight=100),
+        Ob("history_files_replaced", "E1", "h_history", {}, 900, "two creations in one process; between them the firmware file and the dependency envelope file are replaced at the SAME paths (contents symbolic): the second envelope describes the new files (digest, size, payload, embedded dependency, dependency digest)", weight=100),
         Ob("payload_by_path", "E1", "h_payload", {}, 900, "integrated payload given by path (8 representative names incl. hex-looking ones), hex and inline forms next to it", weight=100),
         Ob("dependency_nesting", "E1", "h_dependency", {}, 900, "dependency envelope inline and by path at depth 2: embedded bytes == create(child) on its own; parent digest == hash of the child's wrapped manifest", weight=100),
     ]
+
+
+class Sym:
+    """File-table entry: symbolic link to `target` (relative to the link's directory)."""
+
+    def __init__(self, target):
+        self.target = target
+
+
+def _place(L, files, name, content, tag):
+    """Put `content` under `name`: directly, or (solver's choice) in store/<name> with `name` a symbolic link to it."""
+    if L.bool(tag + "_via_symlink"):
+        files["store/" + name] = content
+        files[name] = Sym("store/" + name)
+    else:
+        files[name] = content
+
+
+def _add_files(fs, files):
+    for n, c in files.items():
+        if isinstance(c, Sym):
+            fs.add_symlink(n, c.target)
+        else:
+            fs.add(n, c)
 
 
 def _content(L, name):
@@ -79,10 +104,10 @@ def build_params(L, what, files):
         alg = L.sel("alg", HASHES)
         content = _content(L, "fw")
         if form == "file":
-            files["fw.bin"] = content
+            _place(L, files, "fw.bin", content, "fw")
             b = {"file": "fw.bin"}
         elif form == "file_direct":
-            files["digest.bin"] = content
+            _place(L, files, "digest.bin", content, "dg")
             b = {"file_direct": "digest.bin"}
         else:
             b = {"raw": L.hex("rawdigest", 4)}
@@ -90,10 +115,10 @@ def build_params(L, what, files):
     form = L.sel("form", ["file", "file_direct", "raw"])
     if form == "file":
         kind = L.sel("size_kind", [0, 1, 23, 24, 255, 256, 65535, 65536])
-        files["fw.bin"] = bytes(kind)
+        _place(L, files, "fw.bin", bytes(kind), "fw")
         v = {"file": "fw.bin"}
     elif form == "file_direct":
-        files["size.txt"] = L.sel("size_text", ["0", "1", "1024", "4294967296"])
+        _place(L, files, "size.txt", L.sel("size_text", ["0", "1", "1024", "4294967296"]), "sz")
         v = {"file_direct": "size.txt"}
     else:
         v = {"raw": L.uint("rawsize")}
@@ -116,8 +141,7 @@ def h_params(what, exclude=()):
         L = _leaves(chx)
         files = {}
         d = build_params(L, what, files)
-        for n, c in files.items():
-            e.fs.add(n, c)
+        _add_files(e.fs, files)
         from props.c02 import _clone
 
         exp = cbormodel.plain_dumps(e.refenc.parameters(_clone(d), e.ctx))
@@ -158,7 +182,11 @@ def h_envelope_ref(exclude=()):
 def build_payload_env(L, files):
     name = L.sel("file_name", NAMES)
     content = b"\x01" + L.raw("content", 2)
-    files[name] = content
+    if "/" not in name and L.bool("pl_via_symlink"):
+        files["store/" + name + ".real"] = content
+        files[name] = Sym("store/" + name + ".real")
+    else:
+        files[name] = content
     man = {"suit-manifest-version": 1, "suit-manifest-sequence-number": L.uint("seq", 23)}
     order = L.bool("path_first")
     pl = {"#by-path": name, "#hex": L.hex("hexpayload", 2)} if order else {"#hex": L.hex("hexpayload", 2), "#by-path": name}
@@ -182,8 +210,7 @@ def h_payload(exclude=()):
         d, name, content = build_payload_env(L, files)
         if "F6" in exclude:
             chx.assume(not all(ch in "0123456789abcdefABCDEF" for ch in name))
-        for n, c in files.items():
-            e.fs.add(n, c)
+        _add_files(e.fs, files)
         from props.c02 import _clone
 
         # the statement's semantics: a payload given by path is that file's content, whatever the name looks like
@@ -248,6 +275,48 @@ def h_dependency(exclude=()):
     return harness
 
 
+def build_history(L, files, gen):
+    """Parent description referring to fw.bin (digest, size, payload; also from inside an inline dependency) and to child.suit
+    (dependency digest + embedding by path).  `gen` numbers the file generation (contents differ between generations)."""
+    fw = b"\x01" + L.raw(f"fw{gen}", 2) + (b"" if gen == 0 else b"\x02")
+    files["fw.bin"] = fw
+    childfile = {"SUIT_Envelope_Tagged": {"suit-authentication-wrapper": {"SuitDigest": {"suit-digest-algorithm-id": "cose-alg-sha-256", "suit-digest-bytes": "00"}}, "suit-manifest": {"suit-manifest-version": 1, "suit-manifest-sequence-number": L.uint(f"cseq{gen}", 2**32 - 1)}}}
+    inline = {"SUIT_Envelope_Tagged": {"suit-authentication-wrapper": {"SuitDigest": {"suit-digest-algorithm-id": "cose-alg-sha-256", "suit-digest-bytes": "00"}}, "suit-manifest": {"suit-manifest-version": 1, "suit-manifest-sequence-number": 3, "suit-common": {"suit-shared-sequence": [{"suit-directive-override-parameters": {"suit-parameter-image-digest": {"suit-digest-algorithm-id": "cose-alg-sha-256", "suit-digest-bytes": {"file": "fw.bin"}}, "suit-parameter-image-size": {"file": "fw.bin"}}}]}}, "suit-integrated-payloads": {"#fw": "fw.bin"}}}
+    palg = "cose-alg-sha-512"
+    params = {"suit-parameter-image-digest": {"suit-digest-algorithm-id": palg, "suit-digest-bytes": {"file": "fw.bin"}}, "suit-parameter-image-size": {"file": "fw.bin"}}
+    dparams = {"suit-parameter-image-digest": {"suit-digest-algorithm-id": palg, "suit-digest-bytes": {"envelope": "child.suit"}}, "suit-parameter-image-size": {"envelope": "child.suit"}}
+    man = {"suit-manifest-version": 1, "suit-manifest-sequence-number": 9, "suit-common": {"suit-shared-sequence": [{"suit-directive-override-parameters": params}, {"suit-directive-override-parameters": dparams}]}}
+    parent = {"SUIT_Envelope_Tagged": {"suit-authentication-wrapper": {"SuitDigest": {"suit-digest-algorithm-id": "cose-alg-sha-256", "suit-digest-bytes": "00"}}, "suit-manifest": man, "suit-integrated-payloads": {"#fw": "fw.bin"}, "suit-integrated-dependencies": {"c.suit": "child.suit", "i.suit": inline}}}
+    return parent, childfile
+
+
+def h_history(exclude=()):
+    from vlib import suitenv
+
+    e = suitenv.setup()
+    from suit_generator.input_output import InputOutputMixin
+
+    from vlib import chx
+
+    def harness():
+        suitenv.reset(e)
+        L = _leaves(chx)
+        from props.c02 import _clone
+
+        ok = True
+        for gen in (0, 1):
+            files = {}
+            parent, childfile = build_history(L, files, gen)
+            files["child.suit"] = e.refenc.envelope(_clone(childfile), e.ctx)
+            _add_files(e.fs, files)  # same paths, new contents
+            exp = e.refenc.envelope(_clone(parent), e.ctx)
+            out = InputOutputMixin.prepare_suit_data(_clone(parent))
+            ok = ok and out == exp
+        return chx.conclude(ok)
+
+    return harness
+
+
 # ------------------------------------------------------------------------------------------------ replay
 
 
@@ -270,6 +339,11 @@ def replay(obligation, params, cex):
             for n, c in files.items():
                 if os.path.dirname(n):
                     os.makedirs(os.path.dirname(n), exist_ok=True)
+                if os.path.lexists(n):
+                    os.remove(n)
+                if isinstance(c, Sym):
+                    os.symlink(c.target, n)
+                    continue
                 with open(n, "wb" if isinstance(c, (bytes, bytearray)) else "w") as fh:
                     fh.write(c)
 
@@ -310,6 +384,20 @@ def replay(obligation, params, cex):
             got = cbor2.loads(out).value.get("#by-path")
             hexlike = all(ch in "0123456789abcdefABCDEF" for ch in name)
             return dict(reproduced=got != content, detail=f"payload file {name!r} holds {content.hex()}, envelope member holds {got.hex() if isinstance(got, bytes) else got!r}", finding="F6" if (got != content and hexlike) else None)
+        if obligation == "history_files_replaced":
+            for gen in (0, 1):
+                files = {}
+                parent, childfile = build_history(L, files, gen)
+                files["child.suit"] = refenc.envelope(_clone(childfile), ctx)
+                put(files)
+                exp = refenc.envelope(_clone(parent), ctx)
+                try:
+                    out = InputOutputMixin.prepare_suit_data(_clone(parent))
+                except Exception as e:  # noqa
+                    return dict(reproduced=True, detail=f"creation {gen + 1} raises {type(e).__name__}: {e}")
+                if out != exp:
+                    return dict(reproduced=True, detail=f"creation {gen + 1} of 2 in one process (files replaced at the same paths in between) does not describe the current files")
+            return dict(reproduced=False, detail="both creations describe the files present at their time")
         if obligation == "dependency_nesting":
             grand = _child(L, "grand", small=True)
             child = _child(L, "child")
